@@ -2264,6 +2264,35 @@ def _(c, cols, idx, opts=None, mode="branch"):
     return c.ts.genetic_relatedness_weighted(W, indexes=tuples, mode=mode, **(opts or {}))
 
 
+@op("individuals.keep_rows_parents", [("parents", "raw"), ("keep", "raw")], needs="tc")
+def _(c, parents, keep):
+    """IndividualTable.keep_rows on a table whose rows have the given parents lists (symbols
+    resolved against the number of rows); keep = '1'/'0' per row."""
+    import numpy as np
+    t = c.tc.individuals
+    n = len(parents)
+    t.clear()
+    for ps in parents:
+        t.add_row(parents=[res_id(x, n) for x in ps])
+    r = t.keep_rows(np.array([k == "1" for k in keep], dtype=bool))
+    return [t.num_rows, summarise(r), sum(len(row.parents) for row in t)]
+
+
+@op("mutations.keep_rows_parents", [("parent", "raw"), ("keep", "raw")], needs="tc")
+def _(c, parent, keep):
+    """MutationTable.keep_rows with the given parent column (one site, node 0)"""
+    import numpy as np
+    tc = c.tc
+    n = len(parent)
+    tc.mutations.clear()
+    if not len(tc.sites):
+        tc.sites.add_row(0.5, "A")
+    for p in parent:
+        tc.mutations.add_row(site=0, node=0, derived_state="T", parent=res_id(p, n))
+    r = tc.mutations.keep_rows(np.array([k == "1" for k in keep], dtype=bool))
+    return [tc.mutations.num_rows, summarise(r), int(sum(tc.mutations.parent))]
+
+
 # ----------------------------------------------------------------------------------
 # bases
 # ----------------------------------------------------------------------------------
@@ -2557,10 +2586,12 @@ def case_failures(case, obs):
 
 class Monitor(Family):
     """Common machinery: observe = run the sequence in a grand-child under the sanitizers."""
-    timeout = 120.0
+    timeout = 120.0             # runner's wall cap per case; the per-step CPU-time watchdog of fork_run fires first
+    coq_timeout = 300           # a case file that does not evaluate within 5 min is a broken correspondence, not a stall
+    shard = 300
     workers = max(1, min(8, int(os.environ.get("VERIF_WORKERS", "6") or 6)))
     prelude = ("From Coq Require Import String.\nFrom TskVerif Require Import Base.Common Gen.Generated C09.Guards "
-               "C09.Guards2 C09.Guards3.\nOpen Scope Z_scope.")
+               "C09.Guards2 C09.Guards3 C09.Guards4.\nOpen Scope Z_scope.")
     tail = ()
 
     def observe(self, case):
@@ -2832,6 +2863,17 @@ def model_term(k, st, r, obs, case):
             given[col] = _len_sym(a["len"], cl[col])
             return ("verdict_implies (verdict_of (table_columns_entry C09_columns_%s [%s])) %s" % (
                 a["table"], "; ".join('("%s"%%string, %s)' % (k, cz(x)) for k, x in given.items()), v))
+        elif opn == "individuals.keep_rows_parents" and len(a["parents"]) == len(a["keep"]):
+            n = len(a["parents"])
+            idm, k = [], 0
+            for ch in a["keep"]:
+                idm.append(k if ch == "1" else -1)
+                k += ch == "1"
+            rows = "; ".join("(%s, %s)" % (cbool(ch == "1"), clist([res_id(x, n) for x in ps]))
+                             for ch, ps in zip(a["keep"], a["parents"]))
+            if any(abs(res_id(x, n)) >= 2 ** 31 for ps in a["parents"] for x in ps):
+                return None
+            return "verdict_implies (verdict_of (individual_keep_rows false %s [%s])) %s" % (clist(idm), rows, v)
         elif opn == "tc.subset":
             n = tcn["nodes"]
             m = "subset_entry %s %s %s %s" % (cbool(tcn["migrations"] > 0), cz(n), _alloc(n),
@@ -2980,6 +3022,7 @@ class TsIds(Monitor):
 
     def generate(self, rng, tier):
         descs = valid_bases(rng, 6 if tier == "quick" else 30, max_sites=4, max_muts=4, migrations=True)
+        descs += [d for d in valid_bases(rng, 12, max_sites=6, max_L=8, max_muts=3) if len(d["sites"]) >= 4][:3]
         bases = [base_valid(rng, d) for d in descs]
         reps = 1 if tier == "quick" else 3
         T = ("probe.ts",)
@@ -3051,6 +3094,13 @@ class TsIds(Monitor):
                 yield {"base": rng.choice(bases), "steps": [{"op": "ts.vcf_masks", "args": {"sample_mask": a}}]}
             for w in ("vcf", "fasta", "nexus", "text", "macs"):
                 yield {"base": rng.choice(bases), "steps": [{"op": "ts.write", "args": {"what": w}}]}
+            many = [b for b in bases if len(b["desc"]["sites"]) >= 4] or bases
+            for sites in ([["0"], ["1"]], [["0"], ["n-1"]], [["0", "2"], ["1", "3"]], [["0"], ["1", "2", "3"]], [["1", "2", "3"], ["0"]],
+                          [["0", "1"], ["2", "3"]], [["3"], ["0", "1", "2"]], [["0", "1", "2"], ["1", "2", "3"]], [["0", "3"], ["1", "2"]],
+                          [["n-1"], ["0"]], [["0", "1", "2", "3"], ["0"]], [["1"], ["0", "1", "2", "3"]]):
+                for stat in ("r2", "D", "pi2"):
+                    st = {"op": "ts.ld_matrix", "args": {"sites": sites, "mode": "site", "stat": stat}, "expect": "any"}
+                    yield {"base": rng.choice(many), "steps": [st, {"op": "probe.ts", "args": {}}]}
             for sites in ([["0"]], [["0"], ["0"]], [["n"]], [["-1"]], [["0", "0"]], [["max"]], [[]], [["n-1", "0"]],
                           [[], ["0"]], [["0"], []], [[], []], [["0", "n"]], [["0", "n-1", "n"]], [["0"], ["0", "n"]],
                           [["0", "n"], ["0"]], [["n+1"]], [["0", "max"]], [["-2"]], [["n", "n+1"]],
@@ -3263,6 +3313,29 @@ class Tables(Monitor):
                             yield {"base": rng.choice(bases), "steps": [
                                 {"op": "table.columns_min_len", "args": {"table": t, "col": col, "len": ln, "how": how, "keep": keep}},
                                 {"op": "table.iterate", "args": {"table": t}}] + T}
+        # ragged / scalar id columns that keep_rows validates and then remaps through id_map
+        # (seeded change C09-7): an out-of-range or deleted reference anywhere in a kept row
+        bad_ids = ("n", "n+1", "max", "-2", "min")
+        plists = [[["-1"], ["0"], ["-1", "0"]], [["0", "-1"], ["-1", "-1"], ["1", "0"]]]
+        for b in bad_ids:
+            plists += [[["-1", b], ["-1"], []], [["0", "-1", b], ["-1"], []], [[b], ["-1"], []], [["-1", "-1", b, "0"], [], []],
+                       [[], ["-1", "0", b], ["0"]], [["-1"], [], ["-1", b]]]
+        plists += [[["-1", "1"], ["-1"], []], [["1", "-1"], ["-1"], []]]          # parent row 1 is deleted by keep 101
+        for ps in plists:
+            for keep in ("111", "101", "100", "011", "000"):
+                kept_bad = any(k == "1" and any(x in bad_ids for x in row) for k, row in zip(keep, ps))
+                deleted_ref = any(k == "1" and any(x not in bad_ids and x != "-1" and keep[int(x)] == "0" for x in row)
+                                  for k, row in zip(keep, ps))
+                yield {"base": rng.choice(bases), "steps": [
+                    {"op": "individuals.keep_rows_parents", "args": {"parents": ps, "keep": keep},
+                     "expect": "raise" if (kept_bad or deleted_ref) else "ok"},
+                    {"op": "table.iterate", "args": {"table": "individuals"}}] + T}
+        for par in (["-1", "0", "1"], ["-1", "-1", "0"], ["-1", "n", "0"], ["-1", "0", "max"], ["-1", "-2", "0"], ["-1", "0", "n+1"],
+                    ["-1", "-1", "1"]):
+            for keep in ("111", "101", "011", "110"):
+                yield {"base": rng.choice(bases), "steps": [
+                    {"op": "mutations.keep_rows_parents", "args": {"parent": par, "keep": keep}, "expect": "any"},
+                    {"op": "table.iterate", "args": {"table": "mutations"}}] + T}
         for name in ("tc.delete_sites",):
             yield from focused(rng, bases, name, tail=("probe.tc",))
         for es in ID_SYMS:
